@@ -58,10 +58,10 @@ def pair_cases(tier, routes=ROUTES, mult4=False, api_labels=True, sweep_pot='pol
     """ordered (simplest first) list of case dicts: route, cutoff, nr, pots=[[a, b, libname], ...]"""
     lib = M.lib()
     names = [n for n, _d, _t in lib]
-    pyn = sorted(M.py_callables()) + (['obj_sub', 'obj_duck'] if objects else [])
+    pyn = sorted(n for n in M.py_callables() if n != 'py_np0d0') + (['obj_sub', 'obj_duck'] if objects else [])
     if from_zero:
         names = [n for n in names if regular_at_zero(n)]
-        pyn = ['obj_sub0', 'obj_duck0'] if objects else []
+        pyn = ['py_np0d0'] + (['obj_sub0', 'obj_duck0'] if objects else [])
     out = []
     G = model_grids(tier, mult4)
     # (1) every library potential alone x grid x route, rotating labels
